@@ -15,7 +15,9 @@ import KavaVerif.Model.Emissions
   c19.kdhist     prev periods blocks               => -                 (blocks = now:active:idx=secs,…;…)
   c19.mintamt    supply rate secs                  => amount
   c19.relpow     x n1 n2                           => z1 z2
-  c19.stakehist  ref0 e0 blocks(time:rate:paid;…)  => -
+  c19.stakehist  ref0 e0 blocks(time:rate:paid:pool;…) => -
+  c19.paramsmsg  now route authOk newUpgrade newRate newUpgradeRate | observation before
+                                                   => class, observation after, observation the keeper route gives
   c19.fullblock  now inflow mintProv prevBlock | community params | inflation params | staking state | kavadist state
                                                    => class and the same observation afterwards
 -/
@@ -276,6 +278,7 @@ structure FullObs where
   kdPrev : Option Int
   supply : Int
   kdBal : Int
+deriving DecidableEq
 
 def fullObs? : List String → Option FullObs
   | [u, r, ur, mn, mx, ka, tx, l, e, p, f, kp, s, kb] =>
@@ -324,6 +327,15 @@ def fullPred (now inflow : Int) (refT : Option Int) (ps infra : List Period) (pr
     | none => decide (paid == 0)
   if !earlierOk then
     predfail "C19_staking_partition" s!"paid-for-earlier-time paid={paid} rate={post.rate} prevBlock={showOpt refT} now={now}"
+  else
+  -- (a') and nothing of the time since the previous block goes unpaid: unless the pool cap binds, the block
+  -- pays more than rate in force × (now − previous block) − 1 unit − 10^-18 (again from the harness's own log
+  -- of the previous block time: a re-initialised accumulation clock, e.g. after a params update, shows here)
+  let shortOk := match refT with
+    | some t => decide (now < t) || decide (paid ≥ poolIn) || decide (NSi * (paid * P + P + 1) > post.rate * (now - t))
+    | none => true
+  if !shortOk then
+    predfail "C19_staking_partition" s!"shortfall paid={paid} rate={post.rate} prevBlock={showOpt refT} now={now} accumulationTime={showOpt pre.last}"
   else
   let rateOk := match pre.last with
     | some l => decide (NSi * (paid * P + post.err - pre.err) ≤ post.rate * (now - l)) || decide (now < l)
@@ -398,37 +410,135 @@ def handleFull : Handler
 
 /-! ### c19.stakehist — (b) a whole keeper-level history with rate changes -/
 
-/-- `time:rate:paid` -/
-def triple? (s : String) : Option (Int × Int × Int) :=
+/-- `time:rate:paid:pool` (`pool` = balance the block's payout saw; absent in old logs = unknown) -/
+def hblockS? (s : String) : Option (Int × Int × Int × Option Int) :=
   match s.splitOn ":" with
   | [a, b, c] =>
     match int? a, int? b, int? c with
-    | some a, some b, some c => some (a, b, c)
+    | some a, some b, some c => some (a, b, c, none)
     | _, _, _ => none
+  | [a, b, c, d] =>
+    match int? a, int? b, int? c, int? d with
+    | some a, some b, some c, some d => some (a, b, c, some d)
+    | _, _, _, _ => none
   | _ => none
 
+/-- running state of the shortfall predicate: previous block time, the unpaid balance `D` of the current
+    uncapped stretch in mantissa·ns (`NS·e0 + Σ rate_b·Δt_b − NS·P·Σ paid_b`), its block count, whether the
+    stretch began after a capped block (carried error then known only to be in [0,1)), block index, verdict -/
+structure ShortSt where
+  prev : Option Int
+  d : Int
+  n : Int
+  afterCap : Bool
+  idx : Nat
+  res : String
+
 /-- fields: ref0 e0 blocks "=>" "-".  `blocks` is the harness's own log of (block time, rate in force in
-    that block, amount that left the community pool for the fee collector in that block).
-    Predicate (C19_staking_rate_changes on the real observation):
-    total paid ≤ Σ_b rate_b·(t_b − t_{b−1}) + carried-in error (< 1 unit). -/
+    that block = the rate stored when its begin blocker paid, amount that left the community pool for the
+    fee collector in that block, pool balance that payout saw).  Rate changes come from params-update
+    messages / keeper updates executed after the begin blocker of a block and from the switch-over.
+    Predicates (C19_staking_rate_changes on the real observation):
+    * total paid ≤ Σ_b rate_b·(t_b − t_{b−1}) + carried-in error (< 1 unit);
+    * over every stretch of blocks in which the pool cap does not bind, after every block:
+      Σ rate_b·Δt_b + carried-in error − paid < 1 + n·10^-18 units (n = blocks of the stretch) — a wiped
+      carried error or a re-initialised accumulation clock (an interval never paid) breaks this — and ≥ 0. -/
 def handleStakeHist : Handler
   | [ref0, e0, blocks, _, _] =>
-    match optInt? ref0, int? e0, (strs blocks ";").mapM triple? with
+    match optInt? ref0, int? e0, (strs blocks ";").mapM hblockS? with
     | some ref0, some e0, some bs =>
-      let step := fun (st : Option Int × Int × Int × Bool) (b : Int × Int × Int) =>
+      let step := fun (st : Option Int × Int × Int × Bool) (b : Int × Int × Int × Option Int) =>
         -- (previous time, Σ rate·Δt, Σ paid, times sorted)
         match st.1 with
-        | none => (some b.1, st.2.1, st.2.2.1 + b.2.2, st.2.2.2)
-        | some t => (some b.1, st.2.1 + b.2.1 * (b.1 - t), st.2.2.1 + b.2.2, st.2.2.2 && decide (t ≤ b.1))
+        | none => (some b.1, st.2.1, st.2.2.1 + b.2.2.1, st.2.2.2)
+        | some t => (some b.1, st.2.1 + b.2.1 * (b.1 - t), st.2.2.1 + b.2.2.1, st.2.2.2 && decide (t ≤ b.1))
       let fin := bs.foldl step (ref0, 0, 0, true)
       let bound := fin.2.1
       let total := fin.2.2.1
       if !fin.2.2.2 || e0 < 0 || e0 ≥ P || bs.any (fun b => decide (b.2.1 < 0)) then "ok"
       else if NSi * (total * P) > bound + NSi * e0 then
         predfail "C19_staking_partition" s!"paid-for-earlier-time history total={total} bound={bound / (NSi * P)} blocks={bs.length}"
-      else "ok"
+      else
+      let sstep := fun (st : ShortSt) (b : Int × Int × Int × Option Int) =>
+        if st.res != "ok" then st else
+        let (t, rate, paid, pool) := b
+        match st.prev with
+        | none =>
+          -- un-initialised state: the first block only records the time and pays nothing
+          if paid != 0 then { st with res := (predfail "C19_staking_rate_changes" s!"paid-before-initialised block={st.idx} paid={paid}") }
+          else { st with prev := some t, idx := st.idx + 1 }
+        | some p =>
+          let d' := st.d + rate * (t - p) - NSi * P * paid
+          let n' := st.n + 1
+          let capped := match pool with
+            | some q => decide (paid ≥ q)
+            | none => true
+          if capped then { prev := some t, d := 0, n := 0, afterCap := true, idx := st.idx + 1, res := "ok" }
+          else if d' ≥ NSi * (P + n') then
+            { st with res := (predfail "C19_staking_rate_changes"
+                s!"shortfall block={st.idx} time={t} rate={rate} paid={paid} unpaid={d' / (NSi * P)} units after {n'} uncapped blocks") }
+          else if d' < (if st.afterCap then -(NSi * P) else 0) then
+            { st with res := (predfail "C19_staking_rate_changes" s!"exceeds-rate block={st.idx} time={t} rate={rate} paid={paid}") }
+          else { st with prev := some t, d := d', n := n', idx := st.idx + 1 }
+      (bs.foldl sstep { prev := ref0, d := NSi * e0, n := 0, afterCap := false, idx := 0, res := "ok" }).res
     | _, _, _ => badInput "parse"
   | _ => badInput "arity"
+
+/-! ### c19.paramsmsg — a community params update inside a block (governance message or keeper route) -/
+
+def obsDiff (a b : FullObs) : String :=
+  " ".intercalate ([
+    (decide (a.upgrade = b.upgrade), "upgradeTime"), (decide (a.rate = b.rate), "rate"),
+    (decide (a.upgradeRate = b.upgradeRate), "upgradeRate"), (decide (a.mintMin = b.mintMin), "mintMin"),
+    (decide (a.mintMax = b.mintMax), "mintMax"), (decide (a.kdActive = b.kdActive), "kavadistActive"),
+    (decide (a.tax = b.tax), "communityTax"), (decide (a.last = b.last), "lastAccumulationTime"),
+    (decide (a.err = b.err), "truncationError"), (decide (a.pool = b.pool), "pool"), (decide (a.fee = b.fee), "feeCollector"),
+    (decide (a.kdPrev = b.kdPrev), "kavadistPrevBlockTime"), (decide (a.supply = b.supply), "supply"),
+    (decide (a.kdBal = b.kdBal), "kavadistBalance")].filterMap fun (same, name) => if same then none else some name)
+
+/-- The property's schedule (`C19_staking_rate_changes`: paid = Σ rate in force × elapsed, error carried)
+    needs a params update to be the identity on the accumulation state — the model's `updateParamsMsg`.
+    Evaluated on the real msg server / keeper: an accepted update changes the three community params and
+    nothing else (accumulation time and carried error in particular; no funds move); a rejected one (wrong
+    authority, invalid params) changes nothing; the message and the keeper route give the same state. -/
+def handleParamsMsg : Handler := fun fs =>
+  if fs.length != 50 then badInput "arity" else
+  match fs.take 6, fullObs? ((fs.drop 6).take 14), fs[21]?, fullObs? ((fs.drop 22).take 14),
+        fullObs? ((fs.drop 36).take 14) with
+  | [_, route, auth, nu, nr, nur], some pre, some cls, some post, some via =>
+    match bool? auth, optInt? nu, int? nr, int? nur with
+    | some auth, some nu, some nr, some nur =>
+      let new : CommParams := ⟨nu, ⟨nr⟩, ⟨nur⟩⟩
+      let s : CommSt :=
+        { params := ⟨pre.upgrade, ⟨pre.rate⟩, ⟨pre.upgradeRate⟩⟩,
+          infl := ⟨⟨pre.mintMin⟩, ⟨pre.mintMax⟩, pre.kdActive, ⟨pre.tax⟩⟩,
+          stk := ⟨pre.last, ⟨pre.err⟩, pre.pool, pre.fee⟩ }
+      let res : Res CommSt := if route == "keeper" then .ok { s with params := new } else updateParamsMsg auth new s
+      let chg := s!"rate={pre.rate}->{nr} route={route}"
+      if cls == "panic" then predfail "C19_staking_rate_changes" s!"update-panicked {chg}"
+      else if cls != "ok" then
+        if post != pre then predfail "C19_staking_rate_changes" s!"rejected-update-changed-state changed=[{obsDiff pre post}] {chg}"
+        else match res with
+          | .ok _ => mismatch "result" "ok" cls
+          | _ => "ok"
+      else if route == "msg" && !auth then predfail "C19_staking_rate_changes" s!"update-accepted-without-authority {chg}"
+      else if post.last != pre.last || post.err != pre.err then
+        predfail "C19_staking_rate_changes"
+          s!"update-touched-accumulation-state lastAccumulationTime={showOpt pre.last}->{showOpt post.last} truncationError={pre.err}->{post.err} {chg}"
+      else if post.pool != pre.pool || post.fee != pre.fee || post.supply != pre.supply then
+        predfail "C19_staking_rate_changes" s!"update-moved-funds pool={pre.pool}->{post.pool} fee={pre.fee}->{post.fee} {chg}"
+      else if obsDiff { pre with upgrade := post.upgrade, rate := post.rate, upgradeRate := post.upgradeRate } post != "" then
+        predfail "C19_staking_rate_changes" s!"update-changed-other-state changed=[{obsDiff { pre with upgrade := post.upgrade, rate := post.rate, upgradeRate := post.upgradeRate } post}] {chg}"
+      else if route == "msg" && post != via then
+        predfail "C19_staking_rate_changes" s!"route-dependent changed=[{obsDiff via post}] {chg}"
+      else match res with
+        | .ok s' =>
+          allOk [expectEq "upgradeTime" (showOpt s'.params.upgradeTime) (showOpt post.upgrade),
+                 expectEq "rate" (toString s'.params.rate.m) (toString post.rate),
+                 expectEq "upgradeRate" (toString s'.params.upgradeRate.m) (toString post.upgradeRate)]
+        | r => mismatch "result" r.cls cls
+    | _, _, _, _ => badInput "parse"
+  | _, _, _, _, _ => badInput "parse"
 
 def handlers : List (String × Handler) := [
   ("c19.calc", handleCalc),
@@ -438,6 +548,7 @@ def handlers : List (String × Handler) := [
   ("c19.mintamt", handleMintAmt),
   ("c19.relpow", handleRelPow),
   ("c19.fullblock", handleFull),
-  ("c19.stakehist", handleStakeHist)
+  ("c19.stakehist", handleStakeHist),
+  ("c19.paramsmsg", handleParamsMsg)
 ]
 end Drv.C19
